@@ -25,7 +25,7 @@ RULE = ("bursts of 1..5 uniquely tagged messages routed back-to-back and across 
         "Ten scenarios route ONE message object three times, updated in between (a progress report); what was routed is recorded as it was when it was routed. non-trivial = a schedule with at least one choice point that had more than one option, a stalled connection, or a scripted interleaving; "
         "distinct = hash(scenario, choice sequence)")
 ASSUMPTIONS = ["thread-pool hand-offs are awaited on the wall clock (bounded; a timeout makes the run inconclusive, never a violation)"]
-REQUIRED_EVENTS = ["sends_of_one_message_object_updated_in_between", "schedules", "choice_points", "outputs_checked", "tcp_scenarios", "tty_scenarios", "client_scenarios", "stalled_connection_runs",
+REQUIRED_EVENTS = ["schedules_with_an_in_process_client_ahead_of_the_connections", "sends_of_one_message_object_updated_in_between", "schedules", "choice_points", "outputs_checked", "tcp_scenarios", "tty_scenarios", "client_scenarios", "stalled_connection_runs",
                    "scripted_interleavings", "scenarios_with_a_message_beyond_the_write_buffer"]
 EXHAUSTIVE_NOTE = "all completion orders of the parked writes/flushes/drains for every scenario of the tier, plus every single stalled connection"
 SHARDED = True
@@ -135,15 +135,16 @@ def make_message(k, big=False, blob=False):
 class Scenario:
     """conns: list of 'tcp' | 'tty' | 'client'; groups: list of burst sizes; stalled: index or None."""
 
-    def __init__(self, conns, groups, stalled=None, script=None, big=(), blob=False, hangup=None, reuse=False):
+    def __init__(self, conns, groups, stalled=None, script=None, big=(), blob=False, hangup=None, reuse=False, snooper=False):
         self.conns, self.groups, self.stalled, self.script, self.big, self.blob = conns, groups, stalled, script, tuple(big), blob
         self.reuse = reuse            # the application keeps ONE message object, updates it and routes it again (a progress report)
+        self.snooper = snooper        # an in-process client (a snooping driver's) that wants the same BLOBs is registered ahead of the connections
         self.hangup = hangup          # index of a connection whose peer disconnects at a point of the schedule the explorer chooses
 
     def key(self):
         return ((tuple(self.conns), tuple(self.groups), self.stalled, self.script) + ((self.big,) if self.big else ())
                 + (("blob",) if self.blob else ()) + ((("hangup", self.hangup),) if self.hangup is not None else ())
-                + (("reuse",) if self.reuse else ()))
+                + (("reuse",) if self.reuse else ()) + (("snooper",) if self.snooper else ()))
 
 
 async def execute(ctx, sc, prefix):
@@ -156,6 +157,17 @@ async def execute(ctx, sc, prefix):
     executor = None
     manual = ManualExecutor()
     loop.set_default_executor(manual)
+    if sc.snooper:
+        # Another driver of the same process follows the camera's frames: its client model is handed the very message objects the
+        # connections serialise afterwards, and takes the payload in (decodes it) first.
+        import indi.message as M
+        from indi.device.snoop import SnoopingClient
+        from indi.message import def_parts
+        sn = SnoopingClient(router)
+        router.register_client(sn)
+        sn.process_message(M.DefBLOBVector(device="D", name="IMG", state="Ok", perm="ro", children=(def_parts.DefBLOB(name="b"),)))
+        router.process_message(M.EnableBLOB(device="D", value="Also"), sender=sn)
+        ctx.count("schedules_with_an_in_process_client_ahead_of_the_connections")
     for i, kind in enumerate(sc.conns):
         if kind == "tcp":
             from indi.transport.server.tcp import ConnectionHandler
@@ -410,7 +422,7 @@ def explore(ctx, sc, max_schedules=None):
         if bad:
             key, what, out = bad
             ctx.violate(key, f"{what} (scenario {sc.key()}, schedule {full})",
-                        {"conns": sc.conns, "groups": sc.groups, "stalled": sc.stalled, "script": sc.script, "big": list(sc.big), "blob": sc.blob, "hangup": sc.hangup, "reuse": sc.reuse, "schedule": full}, {"output_tail": out})
+                        {"conns": sc.conns, "groups": sc.groups, "stalled": sc.stalled, "script": sc.script, "big": list(sc.big), "blob": sc.blob, "hangup": sc.hangup, "reuse": sc.reuse, "snooper": sc.snooper, "schedule": full}, {"output_tail": out})
             return n
         # children: alternatives at positions >= len(prefix)
         for pos in range(len(counts) - 1, len(prefix) - 1, -1):
@@ -448,6 +460,9 @@ def scenarios(ctx):
     for kind in ("tcp", "tty", "client"):
         out += [Scenario([kind], [3], reuse=True), Scenario([kind], [1, 1, 1], reuse=True), Scenario([kind], [2, 1], reuse=True)]
     out += [Scenario(["tcp", "tty"], [2, 1], reuse=True)]
+    for kind in ("tcp", "tty"):
+        out += [Scenario([kind], [1, 1], big=(0,), blob=True, snooper=True), Scenario([kind], [2], big=(1,), blob=True, snooper=True)]
+    out += [Scenario(["tcp", "tcp"], [1, 1], big=(0,), blob=True, snooper=True)]
     out += [Scenario(["tcp", "tcp"], [2, 1], hangup=1), Scenario(["tcp", "tcp"], [1, 1, 1], hangup=0), Scenario(["tcp", "tcp", "tcp"], [2], hangup=2),
             Scenario(["tcp", "tty"], [2, 1], hangup=0)]
     out += [Scenario(["tcp", "tcp"], [1, 1], big=(0,)), Scenario(["tcp", "tty"], [1, 1], big=(0,)), Scenario(["tcp", "tcp"], [1, 1], big=(0,), stalled=0)]
@@ -503,7 +518,7 @@ def exhaustive(ctx):
 
 
 def replay(ctx, case):
-    sc = Scenario(case["conns"], case["groups"], case.get("stalled"), case.get("script"), case.get("big") or (), bool(case.get("blob")), case.get("hangup"), bool(case.get("reuse")))
+    sc = Scenario(case["conns"], case["groups"], case.get("stalled"), case.get("script"), case.get("big") or (), bool(case.get("blob")), case.get("hangup"), bool(case.get("reuse")), bool(case.get("snooper")))
     counts, bad = asyncio.run(execute(ctx, sc, case["schedule"]))
     ctx.case_fast(("replay",))
     ctx.case_fast(("replay2",))
